@@ -285,10 +285,25 @@ impl BufCheck {
                         _ => k,
                     };
                     let first = counter;
-                    {
-                        let sl = w.slice();
-                        for (i, p) in sl.iter_mut().take(k).enumerate() {
-                            *p = T::from_counter(first + i as u64);
+                    // Through the slice, or through the two convenience fillers
+                    // blocks use (they write from the start of the window).
+                    match src.below(4) {
+                        0 => {
+                            let v: Vec<T> = (0..k).map(|i| T::from_counter(first + i as u64)).collect();
+                            w.fill_from_slice(&v);
+                            ctx.count("filled_with_fill_from_slice");
+                        }
+                        1 => {
+                            // The iterator may be longer than what is wanted or
+                            // than the window: the filler stops at the shorter.
+                            w.fill_from_iter((0..k).map(|i| T::from_counter(first + i as u64)));
+                            ctx.count("filled_with_fill_from_iter");
+                        }
+                        _ => {
+                            let sl = w.slice();
+                            for (i, p) in sl.iter_mut().take(k).enumerate() {
+                                *p = T::from_counter(first + i as u64);
+                            }
                         }
                     }
                     counter += k as u64;
